@@ -45,6 +45,12 @@ def scenarios(ctx: Ctx, res: Result):
     for sc in gc.double_outage_family():
         res.count('double_outage_family')
         yield sc
+    for sc in gc.big_backlog_family():
+        res.count('big_backlog_family')
+        yield sc
+    for sc in gc.long_run_family():
+        res.count('long_run_family')
+        yield sc
     for sc in gc.change_during_resync_family():
         res.count('change_during_resync_family')
         yield sc
